@@ -149,12 +149,14 @@ def c01(ctx):
         for ci, case in enumerate(cases):
             nv = cz.num_variants(case["ms"])
             vs = range(nv) if nvar is None else [rng.randrange(nv) for _ in range(nvar)]
-            for v in vs:
+            has_body = any(m["fr"] != "none" for m in case["ms"])
+            plan = [(v, "read") for v in vs] + [(v, "skip") for v in vs if not (ctx.quick and rng.random() < 0.5)]
+            if has_body:
+                # the application ignores the body of a GET (spelling variant 0) / of another method (variant 1)
+                plan += [(0, "skip"), (1, "skip")]
+            for v, mode in plan:
                 n = len(cz.concretize(case["ms"], v, case["cut"]).data)
-                for mode, cuts, src in (("read", rand_cuts(rng, n), "iter"),
-                                        ("skip", rand_cuts(rng, n), "sock")):
-                    if mode == "skip" and ctx.quick and rng.random() < 0.5:
-                        continue
+                for cuts, src in ((rand_cuts(rng, n), "iter" if mode == "read" else "sock"),):
                     ev, obs, c = observe(case, v, cuts, mode, src)
                     traces.append({"ms": case["ms"], "cut": case["cut"], "mode": mode, "ev": ev})
                     meta.append({"family": f, "case": ci, "variant": v, "cuts": cuts, "mode": mode,
@@ -240,8 +242,8 @@ def c06(ctx):
                 t = {"ms": case["ms"], "cut": case["cut"], "mode": "read", "ev": ev}
                 traces.append(t)
                 meta.append({"family": f, "case": ci, "variant": v, "bytes": data.decode("latin-1"),
-                             "digests": list(digs.keys())[:3], "exc": ref_ev["exc"], "cuts": "seg_set",
-                             "nseg": len(ids)})
+                             "digests": [x[:600] for x in list(digs.keys())[:3]], "kinds": _kinds(digs), "exc": ref_ev["exc"],
+                             "cuts": "seg_set", "nseg": len(ids)})
     ctx.coverage["parser_runs"] = nruns
     real_scale_c06(ctx, traces, meta)
     verdicts, stats = tlc.validate_batch("HttpTrace", "HttpTrace.cfg", traces, name="HttpTrace_C06", chunk=4000)
@@ -249,8 +251,7 @@ def c06(ctx):
     for t, m, (v, step) in zip(traces, meta, verdicts):
         if v == "ok":
             continue
-        d = [json.loads(x) for x in m["digests"]]
-        kinds = sorted(set("%s:%s" % (x["fin"], x["exc"]) for x in d))
+        kinds = m["kinds"]
         sig = "C06/%s/%s/%s" % (v, m.get("shape", "model-scale"), "|".join(kinds))
         ctx.violation(sig, "observation depends on segmentation: %s for stream %r..." % (kinds, m["bytes"][:120]),
                       {"trace": t, "meta": m})
@@ -258,6 +259,14 @@ def c06(ctx):
         ctx.sample({"bytes": m["bytes"][:120], "segmentations": m["nseg"], "distinct_observations": len(m["digests"])})
     ctx.assumptions += ["default parser configuration (C06 quantifies over inputs and schedules)",
                         "reads of at most 8192 bytes (SocketUnreader) / arbitrary segments (IterUnreader)"]
+
+
+def _kinds(digs):
+    out = set()
+    for x in digs:
+        d = json.loads(x)
+        out.add("%s:%s:%d" % (d["fin"], d["exc"], len(d["reqs"])))
+    return sorted(out)
 
 
 def real_scale_c06(ctx, traces, meta):
@@ -275,6 +284,10 @@ def real_scale_c06(ctx, traces, meta):
         shapes.append(("chunk@%d" % target,
                        b"POST / HTTP/1.1\r\nTransfer-Encoding: chunked\r\n\r\n%x\r\n" % len(body) + body
                        + b"\r\n3\r\nabc\r\n0\r\nX-T: 1\r\n\r\nGET /2 HTTP/1.1\r\n\r\n"))
+    # request line of exactly / one over the default limit_request_line (4094), cut at every offset around its CRLF
+    for ln in (4093, 4094, 4095):
+        rl = b"GET /" + b"a" * (ln - len(b"GET / HTTP/1.1")) + b" HTTP/1.1"
+        shapes.append(("reqline=%d" % ln, rl + b"\r\nHost: h\r\n\r\nGET /2 HTTP/1.1\r\n\r\n"))
     # largest head within the default limits, then body bytes
     if not ctx.quick:
         line = b"X-H: " + b"v" * (8188 - 5)
@@ -300,8 +313,8 @@ def real_scale_c06(ctx, traces, meta):
             ev.append({"e": "seg", "dig": digs.setdefault(d, len(digs) + 1)})
         traces.append({"ms": [], "cut": 0, "mode": "read", "ev": ev})
         meta.append({"family": "real-scale", "shape": name, "bytes": data[:100].decode("latin-1"),
-                     "digests": [x[:400] for x in list(digs.keys())[:3]], "exc": None, "nseg": len(segsets),
-                     "cuts": "delims"})
+                     "digests": [x[:400] for x in list(digs.keys())[:3]], "kinds": _kinds(digs), "exc": None,
+                     "nseg": len(segsets), "cuts": "delims"})
 
 
 def replay(ctx, data):
@@ -367,6 +380,8 @@ def limit_record(ctx, cfgkw, rllen, fields, cuts_kind, rng, body=b"", proxy=Fals
         cuts = list(range(1, len(data)))
     elif cuts_kind == "8k":
         cuts = list(range(8192, len(data), 8192))
+    elif cuts_kind == "crlf":
+        cuts = [data.find(b"\r\n") + 1]       # a read ends between the CR and the LF of the request line
     elif cuts_kind == "mid":
         # the first read ends inside the head; the second brings the rest of it plus what follows
         cuts = [max(1, (data.find(b"\r\n\r\n") + 2) // 2)]
@@ -483,7 +498,7 @@ def c12(ctx):
             rl = eff + d
             if rl < 14:
                 continue
-            for ck in cutkinds:
+            for ck in cutkinds + ["crlf"]:
                 if ck == "bytes" and rl > 300:
                     continue
                 add(*limit_record(ctx, {"limit_request_line": L}, rl, [("plain", 12)], ck, rng))
